@@ -556,6 +556,19 @@ def r06_16(chk):
 
     for c in calls:
         chk.decide(prefers_fmt(c.args[0]), "R06.16", key(m, "_load_seqs", f"parser chosen by {norm(c.args[0])[:30]}"), m.loc(c), "the explicit format has priority over the suffix", f"`{norm(c)}` looks the parser up without giving the caller's `fmt` priority: load_aligned_seqs('brca1.aln', format='fasta') is read with the Clustal parser")
+    # the loaders hand the caller's format on to the helpers they delegate to
+    for q in ("load_seq", "load_unaligned_seqs", "load_aligned_seqs"):
+        lf = m.func(q)
+        if "format" not in params_of(lf):
+            continue
+        suffix_names = {st.targets[0].elts[0].id for st in walk_no_nested(lf) if isinstance(st, ast.Assign) and isinstance(st.targets[0], ast.Tuple) and isinstance(st.value, ast.Call) and (call_name(st.value) or "").endswith("get_format_suffixes") and isinstance(st.targets[0].elts[0], ast.Name)}
+        for c in walk_no_nested(lf):
+            if isinstance(c, ast.Call):
+                for kw in c.keywords:
+                    if kw.arg == "format" and isinstance(kw.value, ast.Name) and kw.value.id in suffix_names:
+                        chk.violation("R06.16", key(m, q, f"format handed to {norm(c.func)[:40]}"), m.loc(c), f"`{norm(c.func)}(..., format={kw.value.id})` passes the suffix of the path, not the caller's `format`: load_unaligned_seqs('data/*.txt', format='fasta') fails with Unsupported format 'txt'")
+                    elif kw.arg == "format":
+                        chk.ok("R06.16", key(m, q, f"format handed to {norm(c.func)[:40]}"), m.loc(c), f"format={norm(kw.value)[:30]}")
     chk.floor("R06.16", 1, "_load_seqs")
 
 
